@@ -27,6 +27,10 @@ CHECKS = {
    "for every accepted text of the C11 corpus whose first Format succeeds, Format(Format(x)) is compared with Format(x) byte for byte",
    "held on the texts explored (AST families x 9 layouts, seeded random schemas)",
    "runtime monitoring: idempotence oracle over generated inputs"),
+ "C13": ("exploration",
+   "every single semantic-error injection of the statement's classes, at every applicable site, into ~560 base schemas that the real ReadFile+Generate first accept (construct/ordering families + seeded random), executed in child processes; positive recursion cases and struct chains/cycles up to 64 definitions under a CPU budget",
+   "held on the (class, site, base) triples explored; out-of-range consts and self-containment through containers are deliberately not demanded (DESIGN section 8); one class x site is a recorded known finding",
+   "runtime monitoring: mutation-injection workload with accept/reject oracle, CPU-budget monitor for the recursion analysis"),
 }
 DESIGN = {i: "DESIGN.md section 4, %s" % i for i in CHECKS}
 
